@@ -75,6 +75,21 @@ pub enum Ty {
     Powers,
     /// `FastPathRadix`
     Radix,
+    /// `VecType` (= `StackVec` / `HeapVec`); Coq: the record `vec` of model/Vec.v
+    Vec,
+    /// `Bigint` = its single field `data : VecType`; Coq: `vec`
+    Big,
+    /// `&[Limb]`; Coq: `list Z`
+    Slice,
+    /// `ReverseView<Limb>` = its single field `inner : &[Limb]`; Coq: `list Z`
+    RView,
+    /// an iterator, as the list of the items not yet consumed
+    Seq(Box<Ty>),
+    /// `cmp::Ordering`; Coq: `comparison`
+    Ordering,
+    /// the result of calling an `Option<()>` function with `&mut` parameters: `option` of the
+    /// updated arguments (rule 15); only `?`, `.unwrap()` and returning it are possible
+    OptUpd,
 }
 
 impl Ty {
@@ -108,6 +123,11 @@ impl Ty {
             Ty::Table2 => "(list (Z * Z))".into(),
             Ty::Powers => "btables".into(),
             Ty::Radix => "bool".into(),
+            Ty::Vec | Ty::Big => "vec".into(),
+            Ty::Slice | Ty::RView => "(list Z)".into(),
+            Ty::Seq(t) => format!("(list {})", t.coq()),
+            Ty::Ordering => "comparison".into(),
+            Ty::OptUpd => "(* option of the updated arguments *)".into(),
         }
     }
 }
@@ -129,6 +149,10 @@ pub fn fun_is_monadic(ps: &[(Ty, bool)]) -> bool {
 /// order, followed by the Rust result unless that is `()`.
 pub fn fun_result(ps: &[(Ty, bool)], r: &Ty) -> Ty {
     let mut v: Vec<Ty> = ps.iter().filter(|(_, m)| *m).map(|(t, _)| t.clone()).collect();
+    if *r == Ty::Opt(Box::new(Ty::Unit)) && !v.is_empty() {
+        // rule 15: `Option<()>` with `&mut` parameters = option of the updated values
+        return Ty::Opt(Box::new(if v.len() == 1 { v.pop().unwrap() } else { Ty::Tuple(v) }));
+    }
     if *r != Ty::Unit || v.is_empty() {
         v.push(r.clone());
     }
@@ -145,6 +169,7 @@ pub struct Needs {
     pub c: bool,
     pub t: bool,
     pub bt: bool,
+    pub l: bool,
     pub f: bool,
 }
 
@@ -153,6 +178,7 @@ impl Needs {
         self.c |= o.c;
         self.t |= o.t;
         self.bt |= o.bt;
+        self.l |= o.l;
         self.f |= o.f;
     }
     pub fn binders(&self) -> String {
@@ -165,6 +191,9 @@ impl Needs {
         }
         if self.bt {
             s.push_str("(BT : btables) ");
+        }
+        if self.l {
+            s.push_str("(L : limits) ");
         }
         if self.f {
             s.push_str("(f : format) ");
@@ -183,6 +212,9 @@ impl Needs {
         if self.bt {
             s.push_str("BT ");
         }
+        if self.l {
+            s.push_str("L ");
+        }
         if self.f {
             s.push_str("f ");
         }
@@ -195,8 +227,20 @@ impl Needs {
 pub struct FnInfo {
     pub coq_name: String,
     pub needs: Needs,
+    /// the parameters after `self` (type, is `&mut`)
     pub params: Vec<(Ty, bool)>,
     pub ret: Ty,
+    /// the `self` receiver of a method with a Gallina argument (type, is `&mut self`)
+    pub self_param: Option<(Ty, bool)>,
+}
+
+impl FnInfo {
+    /// all Gallina arguments: `self` first
+    pub fn all_params(&self) -> Vec<(Ty, bool)> {
+        let mut v: Vec<(Ty, bool)> = self.self_param.iter().cloned().collect();
+        v.extend(self.params.iter().cloned());
+        v
+    }
 }
 
 /// Operators already defined in base/RustSem.v; all others are defined in the prelude of Src.v
